@@ -833,6 +833,24 @@ func checkC18(c *Ctx) {
 	if fn := c.Fn("H3.hdtext", "efi/device.(HardDriveMediaDevicePath).Format"); fn != nil {
 		c.hardDriveText(fn)
 	}
+	// every entry is decoded; a reused receiver is replaced; rendering cannot fail on field values
+	for _, s := range sites {
+		c.ruleAllEntries("H2.all", s.fn)
+	}
+	c.R.Floor("H2.all", 2)
+	inDevice := func(f *ssa.Function) bool { return strings.Contains(name(f), "efi/device.") }
+	c.ruleDecodeReplaces("G14.replace", inDevice)
+	render := map[*ssa.Function]bool{}
+	for _, f := range c.P.LibFunctions() {
+		if inDevice(f) && f.Signature.Recv() != nil && (f.Name() == "Format" || f.Name() == "String") {
+			for _, g := range c.cone(f) {
+				for _, h := range withAnon(g) {
+					render[h] = true
+				}
+			}
+		}
+	}
+	c.RuleT("", func(f *ssa.Function) bool { return render[f] }, map[string]bool{"T4": true, "T5": true})
 	c.R.Floor("H2.bootname", 2)
 	c.R.Floor("G5.layout", 4)
 }
@@ -1142,4 +1160,194 @@ func (c *Ctx) handWrittenUTF16(fn *ssa.Function) string {
 		return "the string is encoded to UTF-16 by hand (code units packed with PutUint16/AppendUint16, runes above U+FFFF split explicitly)"
 	}
 	return ""
+}
+
+// ruleAllEntries (H2.all): the boot-order decoders turn every 16-bit entry of
+// the variable into a name. Decided on the shape of the consumption: chunk
+// reads from the value must sit in a loop that runs until the value is
+// exhausted (or take the whole value at once). A counter compared against the
+// shrinking remaining length stops half way; a single bounded read drops
+// whatever does not fit. Other shapes are not decided.
+func (c *Ctx) ruleAllEntries(rule string, fn *ssa.Function) {
+	dv := c.deepViewOf(fn, 2)
+	fname := name(fn)
+	isBuf := func(v ssa.Value) bool {
+		id := ir.NamedTypeID(ir.StripIface(v).Type())
+		return id == "bytes.Buffer" || id == "bytes.Reader"
+	}
+	type rd struct {
+		call *ssa.Call
+		fr   *frame
+		obj  dval
+		size ssa.Value // the buffer filled / the count taken, nil if not applicable
+	}
+	var reads []rd
+	whole := false
+	for _, di := range dv.order {
+		call, ok := di.i.(*ssa.Call)
+		if !ok {
+			continue
+		}
+		args := ir.CallArgs(call)
+		if len(args) == 0 {
+			continue
+		}
+		id := ir.CallID(call)
+		switch id {
+		case "bytes.Buffer.Read", "bytes.Reader.Read", "io.ReadFull":
+			if isBuf(args[0]) && len(args) > 1 {
+				reads = append(reads, rd{call, di.fr, dv.objectOf(args[0], di.fr), args[1]})
+			}
+		case "bytes.Buffer.Next":
+			reads = append(reads, rd{call, di.fr, dv.objectOf(args[0], di.fr), args[1]})
+		case "bytes.Buffer.ReadByte", "bytes.Reader.ReadByte":
+			reads = append(reads, rd{call, di.fr, dv.objectOf(args[0], di.fr), nil})
+		case "encoding/binary.Read":
+			if isBuf(args[0]) {
+				reads = append(reads, rd{call, di.fr, dv.objectOf(args[0], di.fr), nil})
+			}
+		case "bytes.Buffer.Bytes", "bytes.Buffer.String", "io.ReadAll":
+			if isBuf(args[0]) {
+				whole = true
+			}
+		}
+	}
+	if len(reads) == 0 {
+		if whole {
+			c.R.Infof(rule, fname, "all-entries", c.Pos(fn.Pos()), "not decided for this shape: the value is taken as a whole and indexed; the index arithmetic is not followed")
+		} else {
+			c.R.Infof(rule, fname, "all-entries", c.Pos(fn.Pos()), "not decided for this shape: no read from a bytes.Buffer/bytes.Reader found in the decoder")
+		}
+		return
+	}
+	var bad, undecided []string
+	good := 0
+	for _, r := range reads {
+		var loop *natLoop
+		for _, l := range naturalLoops(r.fr.fn) {
+			if l.body[r.call.Block().Index] && (loop == nil || len(l.body) < len(loop.body)) {
+				loop = l
+			}
+		}
+		lenOfStream := func(v ssa.Value) (*ssa.Call, bool) {
+			lc, ok := ir.StripConv(v).(*ssa.Call)
+			if !ok {
+				return nil, false
+			}
+			if id := ir.CallID(lc); id != "bytes.Buffer.Len" && id != "bytes.Reader.Len" {
+				return nil, false
+			}
+			return lc, dv.objectOf(lc.Call.Args[0], r.fr).same(r.obj)
+		}
+		if loop == nil {
+			// one read: whole only if sized by the remaining length
+			if r.size == nil {
+				bad = append(bad, "a single fixed-size read at "+c.IPos(r.call)+" outside any loop")
+				continue
+			}
+			a := dv.affine(r.size, r.fr, nil, 0)
+			if isByteSlice(r.size.Type()) {
+				a = dv.sliceLen(r.size, r.fr)
+			}
+			switch {
+			case a.isConst():
+				bad = append(bad, fmt.Sprintf("a single read of at most %d bytes at %s outside any loop: entries beyond that are dropped", a.K, c.IPos(r.call)))
+			default:
+				sized := false
+				for _, v := range a.Sym {
+					if _, ok := lenOfStream(v); ok {
+						sized = true
+					}
+				}
+				if sized {
+					good++
+				} else {
+					undecided = append(undecided, "the size of the single read at "+c.IPos(r.call)+" is "+a.String())
+				}
+			}
+			continue
+		}
+		// exits of the loop
+		verdict := ""
+		for bi := range loop.body {
+			b := r.fr.fn.Blocks[bi]
+			iff, ok := b.Instrs[len(b.Instrs)-1].(*ssa.If)
+			if !ok || loop.body[b.Succs[0].Index] && loop.body[b.Succs[1].Index] {
+				continue
+			}
+			bo, ok := iff.Cond.(*ssa.BinOp)
+			if !ok {
+				continue
+			}
+			inBody := func(v ssa.Value) bool {
+				in, ok := v.(ssa.Instruction)
+				return ok && in.Block() != nil && loop.body[in.Block().Index]
+			}
+			for _, pair := range [][2]ssa.Value{{bo.X, bo.Y}, {bo.Y, bo.X}} {
+				lc, isLen := lenOfStream(pair[0])
+				if !isLen || !inBody(lc) {
+					continue
+				}
+				other := ir.StripConv(pair[1])
+				if k, isK := ir.ConstInt(other); isK {
+					if k <= 1 && verdict == "" {
+						verdict = "ok"
+					}
+					continue
+				}
+				if ph, isPhi := other.(*ssa.Phi); isPhi && inBody(ph) {
+					verdict = "a counter that grows with every entry is compared with the remaining length of the value, which shrinks with every read (" + c.IPos(iff) + "): the loop stops after half of the entries"
+				}
+			}
+			// leaving on the error of the read itself
+			if verdict == "" {
+				for v := range c.sliceOf(iff.Cond) {
+					if v == ssa.Value(r.call) {
+						verdict = "ok"
+					}
+				}
+			}
+		}
+		switch verdict {
+		case "ok":
+			good++
+		case "":
+			undecided = append(undecided, "the loop around the read at "+c.IPos(r.call)+" is not bounded by the remaining length of the value in a modelled way")
+		default:
+			bad = append(bad, verdict)
+		}
+	}
+	if len(bad) == 0 && (len(undecided) > 0 || good == 0) {
+		c.R.Infof(rule, fname, "all-entries", c.Pos(fn.Pos()), "not decided for this shape: "+strings.Join(undecided, "; "))
+		return
+	}
+	c.R.Check(len(bad) == 0, rule, fname, "all-entries", c.Pos(fn.Pos()), "every 16-bit entry of the variable is decoded: the reads run until the value is exhausted", strings.Join(bad, "; "))
+}
+
+// sliceLen: the length of a byte slice value as an affine expression (a
+// symbol when it is not built locally).
+func (d *deepView) sliceLen(v ssa.Value, fr *frame) Affine {
+	r := d.resolve(ir.StripIface(v), fr)
+	switch x := r.v.(type) {
+	case *ssa.MakeSlice:
+		return d.affine(x.Len, r.fr, nil, 0)
+	case *ssa.Slice:
+		var hi Affine
+		if x.High != nil {
+			hi = d.affine(x.High, r.fr, nil, 0)
+		} else if pt, ok := x.X.Type().Underlying().(*types.Pointer); ok {
+			arr, isArr := pt.Elem().Underlying().(*types.Array)
+			if !isArr {
+				break
+			}
+			hi = constAffine(arr.Len())
+		} else {
+			hi = d.sliceLen(x.X, r.fr)
+		}
+		if x.Low != nil {
+			return hi.add(d.affine(x.Low, r.fr, nil, 0), -1)
+		}
+		return hi
+	}
+	return symAffine("len("+d.pathName(r.v, r.fr, 0)+")", r.v)
 }
